@@ -41,6 +41,7 @@ fn main() {
             let id = toks[0].to_string();
             let out = match std::panic::catch_unwind(|| match toks[1] {
                 "flw" => flw::run_case(toks[0], &toks[2..]),
+                "flwl" => flw::run_case_via_logger(toks[0], &toks[2..]),
                 "tryfrom" => flw::run_tryfrom(toks[0], &toks[2..]),
                 "conc" => conc::run_conc(toks[0], &toks[2..]),
                 "lh" => lh::run_lh(toks[0], &toks[2..]),
